@@ -373,9 +373,11 @@ def rdf_model_check(c):
         return "false"        # an exception escaped the real function; the model has none
     files = [d for d in c["removed_events"] if c["before"].get(d, ["?"])[0] != "dir"]
     dirs = [d for d in c["removed_events"] if c["before"].get(d, ["?"])[0] == "dir"]
-    return (f"let r := remove_deletable_files {cc.coq_queue(c['qfiles'], c['qdirs'])} {cc.coq_fs(model_fs(c['before']))} in "
+    # fs_closedb: the hypothesis of C07_rdf_emptied_parents_pruned holds of the snapshot of the real tree
+    return (f"let f0 := {cc.coq_fs(model_fs(c['before']))} in "
+            f"let r := remove_deletable_files {cc.coq_queue(c['qfiles'], c['qdirs'])} f0 in "
             f"fs_match {cc.coq_fs(model_fs(c['after']))} (r_fs r) && strs_eqb {cc.coq_strs(files)} (r_files r) && "
-            f"strs_eqb {cc.coq_strs(dirs)} (r_dirs r)")
+            f"strs_eqb {cc.coq_strs(dirs)} (r_dirs r) && fs_closedb f0")
 
 
 async def link_pair_case(order, d=""):
